@@ -85,7 +85,8 @@ Definition apply_changes (l : list (key * tree)) (m : list (key * change)) : lis
 Inductive gres :=
 | GOk (t : tree)
 | GNoOption
-| GNotMap.
+| GNotMap
+| GOther.                                   (* any other error: never produced by the model *)
 
 Fixpoint get_from (ks : path) (l : list (key * tree)) : gres :=
   match ks with
@@ -247,20 +248,25 @@ Record rtx := mkRtx { r_pristine : config; r_log : wlog }.
 
 Definition r_view (t : rtx) (s : key) : list (key * tree) := purge_snap (replay (r_log t) (r_pristine t)) s.
 
-(* a scalar strictly inside the path *)
-Fixpoint scalar_on_path (ks : path) (t : tree) : bool :=
+(* a scalar met while keys remain: walking ks from node o *)
+Fixpoint blocked (ks : path) (o : option tree) : bool :=
   match ks with
   | [] => false
-  | k :: r => match r with
-              | [] => false
-              | _ :: _ => match t with
-                          | Obj l => match lookup k l with
-                                     | Some (Atom _) => true
-                                     | Some c => scalar_on_path r c
-                                     | None => false
-                                     end
-                          | _ => false
-                          end
+  | k :: r => match o with
+              | Some (Atom _) => true
+              | Some (Obj l) => blocked r (lookup k l)
+              | _ => false
+              end
+  end.
+
+(* reading a path from a node (specification form of getFromConfig below the top level) *)
+Fixpoint get_node (ks : path) (o : option tree) : gres :=
+  match ks with
+  | [] => match o with Some t => GOk t | None => GNoOption end
+  | k :: r => match o with
+              | Some (Obj l) => get_node r (lookup k l)
+              | Some (Atom _) => GNotMap
+              | _ => GNoOption
               end
   end.
 
@@ -270,8 +276,8 @@ Definition r_set (t : rtx) (s : key) (ks : path) (v : tree) : option rtx :=
   match ks with
   | [] => None
   | _ :: _ =>
-      if scalar_on_path ks (Obj (snap_map (r_pristine t) s))
-         || scalar_on_path ks (Obj (snap_map (replay (r_log t) (r_pristine t)) s))
+      if blocked ks (Some (Obj (snap_map (r_pristine t) s)))
+         || blocked ks (Some (Obj (snap_map (replay (r_log t) (r_pristine t)) s)))
       then None else Some (mkRtx (r_pristine t) (r_log t ++ [(s, ks, v)]))
   end.
 
@@ -280,13 +286,25 @@ Definition r_get (t : rtx) (s : key) (ks : path) : gres := get_from ks (r_view t
 Definition log_snaps (lg : wlog) : list key := map (fun w => fst (fst w)) lg.
 
 (* reference Commit: replay the log on the latest configuration and purge the snaps written to *)
+Definition content (t : tree) : list (key * tree) := match t with Obj l => l | _ => [] end.
+
+Definition purge_written (snaps : list key) (c : config) : config :=
+  map (fun sv => (fst sv, if existsb (N.eqb (fst sv)) snaps then Obj (purge_list (content (snd sv))) else snd sv)) c.
+
 Definition r_commit (t : rtx) (latest : config) : config * rtx :=
   match r_log t with
   | [] => (latest, t)
-  | lg => let c1 := replay lg latest in
-          let c := fold_left (fun cfg s => aset s (Obj (purge_snap cfg s)) cfg) (log_snaps lg) c1 in
-          (c, mkRtx c [])
+  | lg => let c := purge_written (log_snaps lg) (replay lg latest) in (c, mkRtx c [])
   end.
+
+(* ------------------------------------------------------------------ well-formedness (Go maps have unique keys) *)
+Fixpoint wf_change (c : change) : bool :=
+  match c with
+  | Raw t => wf_tree t
+  | Patch m => sorted (map fst m) && forallb (fun kc => wf_change (snd kc)) m
+  end.
+
+Definition wf_op (o : op) : bool := match o with OSet _ _ _ v => wf_tree v | _ => true end.
 
 (* ------------------------------------------------------------------ correspondence / monitor interface *)
 Definition list_eqb {A : Type} (eq : A -> A -> bool) :=
